@@ -195,6 +195,7 @@ func tagProducer(tag string) runtime.Producer {
 // newRuntime returns a client runtime with the default producers plus the tag producer.
 func newRuntime() *client.Runtime {
 	rt := client.New("api.example.test", "/", []string{"http"})
+	rt.Debug = false // client.New reads SWAGGER_DEBUG / DEBUG from the process environment
 	rt.Producers[tagMime] = tagProducer("tag")
 	return rt
 }
@@ -356,6 +357,30 @@ func executeOn(rt *client.Runtime, c Case) (o observed) {
 		rt.DefaultAuthentication = auth
 	}
 
+	if c.Observe == "submit" {
+		// the whole call: Runtime.Submit with a transport that serialises the request as net/http
+		// would and reads it back as a server's net/http would
+		tr := &captureTransport{o: &o}
+		rt.Transport = tr
+		if c.Debug {
+			rt.Debug = true
+			rt.SetLogger(silentLogger{})
+		}
+		op.Reader = runtime.ClientResponseReaderFunc(func(runtime.ClientResponse, runtime.Consumer) (interface{}, error) { return nil, nil })
+		_, err := rt.Submit(op)
+		switch {
+		case setupErr != nil:
+			o.harnessErr = setupErr.Error()
+		case err != nil && tr.reached:
+			o.sendErr = "Submit: " + err.Error()
+		case err != nil:
+			o.buildErr = "Submit: " + err.Error()
+		case !tr.reached:
+			o.sendErr = "Submit returned without error but never called the transport"
+		}
+		return o
+	}
+
 	var err error
 	req, err = rt.CreateHttpRequest(op)
 	if setupErr != nil {
@@ -449,3 +474,41 @@ func makeReader(rs ReaderSpec, x *execEnv) (interface{}, error) {
 	}
 	return nil, fmt.Errorf("unknown reader flavor %q", rs.Flavor)
 }
+
+// captureTransport is the RoundTripper of the submit observation.
+type captureTransport struct {
+	o       *observed
+	reached bool
+}
+
+func (t *captureTransport) RoundTrip(req *http.Request) (*http.Response, error) {
+	t.reached = true
+	_, t.o.streamed = req.Body.(*io.PipeReader)
+	var wire bytes.Buffer
+	if err := req.Write(&wire); err != nil { // closes the body, like a transport
+		return nil, fmt.Errorf("Request.Write: %w", err)
+	}
+	got, err := http.ReadRequest(bufio.NewReader(&wire))
+	if err != nil {
+		return nil, fmt.Errorf("http.ReadRequest: %w", err)
+	}
+	b, err := io.ReadAll(got.Body)
+	if err != nil {
+		return nil, fmt.Errorf("reading the received body: %w", err)
+	}
+	t.o.sent = b
+	_, t.o.hasCT = got.Header["Content-Type"]
+	t.o.ct = got.Header.Get("Content-Type")
+	return &http.Response{
+		Status: "200 OK", StatusCode: 200, Proto: "HTTP/1.1", ProtoMajor: 1, ProtoMinor: 1,
+		Header:  http.Header{"Content-Type": []string{runtime.JSONMime}},
+		Body:    io.NopCloser(strings.NewReader("{}")),
+		Request: req,
+	}, nil
+}
+
+// silentLogger swallows the Debug dumps.
+type silentLogger struct{}
+
+func (silentLogger) Printf(string, ...interface{}) {}
+func (silentLogger) Debugf(string, ...interface{}) {}
